@@ -143,20 +143,20 @@ type PItem struct {
 }
 
 type Prelude struct {
-	Items   []*PItem
-	Fns     map[string]*SpecFn
-	Ghosts  map[string]string // ghost var -> sort
+	Items      []*PItem
+	Fns        map[string]*SpecFn
+	Ghosts     map[string]string // ghost var -> sort
 	GhostOrder []string
-	Consts  map[string]string // declared constants -> sort
-	ModDeps map[string][]string
-	AfterSorts map[string]bool // modules that must be emitted after the program datatypes
-	GoTypes []string // Go types whose sorts the prelude mentions
-	ExtraDecl map[string]string // constructor/selector symbol -> module
-	Attach map[string][]string // module -> axiom modules attached to it (left out of lemma queries)
-	Monotone map[string]bool // ghost counters that never decrease
-	Grows map[string]bool // ghost sets that only grow
-	StrLits map[string]string // string literal value -> prelude constant
-	AppendSum map[string][]string // element sort -> prefix-sum functions additive over append
+	Consts     map[string]string // declared constants -> sort
+	ModDeps    map[string][]string
+	AfterSorts map[string]bool     // modules that must be emitted after the program datatypes
+	GoTypes    []string            // Go types whose sorts the prelude mentions
+	ExtraDecl  map[string]string   // constructor/selector symbol -> module
+	Attach     map[string][]string // module -> axiom modules attached to it (left out of lemma queries)
+	Monotone   map[string]bool     // ghost counters that never decrease
+	Grows      map[string]bool     // ghost sets that only grow
+	StrLits    map[string]string   // string literal value -> prelude constant
+	AppendSum  map[string][]string // element sort -> prefix-sum functions additive over append
 }
 
 func LoadPrelude(paths ...string) (*Prelude, error) {
